@@ -16,6 +16,8 @@ func init() { register("C02", runC02) }
 
 func runC02(c *mon.Ctx) {
 	switch flagMode {
+	case "lifecycle":
+		c.Cases(func(i int, r *mon.Rand) { lifecycleCase(c, r, "C02") })
 	case "stress":
 		c.Cases(func(i int, r *mon.Rand) { c02Stress(c, r) })
 	default:
